@@ -872,6 +872,10 @@ class SNum:
         if d.is_const():
             c = d.cval()
             return {'lt': c < 0, 'le': c <= 0, 'gt': c > 0, 'ge': c >= 0, 'eq': c == 0, 'ne': c != 0}[op]
+        if op in ('ge', 'lt') and _sos(d):
+            return op == 'ge'           # a positive combination of non-negative quantities
+        if op in ('le', 'gt') and _sos(-d):
+            return op == 'le'
         sg = _known_sign(d)
         if sg is not None:
             if sg == 'nz':
@@ -894,11 +898,11 @@ class SNum:
     def __ne__(s, o): return s._cmp(o, 'ne')
 
     def __hash__(s):
+        # structural hash of the normal form: equal normal forms hash alike (and compare True); semantically equal values with
+        # different normal forms are merely a cache miss for dict / lru_cache users
         c = s.const()
         if c is None:
-            if s.is_int:
-                return hash(concretize(s))
-            raise SymxUnsupported('hash of a symbolic real')
+            return hash(s.p.key())
         return hash(c)
 
     def __bool__(s):
